@@ -34,7 +34,8 @@ def main():
     for i, a in enumerate(sys.argv):
         if a == "--props":
             props = sys.argv[i + 1].split(",")
-    base = "/tmp/seed/%s" % pid
+    base = os.path.join(os.environ.get("SEED_DIR", "/tmp/seed"), pid)
+    wave = os.environ.get("SEED_WAVE", "")
     wt = base + "/wt"
     outs = sorted(d for d in os.listdir(base + "/out") if os.path.isdir(os.path.join(base, "out", d)))
     import importlib.util
@@ -44,7 +45,7 @@ def main():
     for m in outs:
         d = os.path.join(base, "out", m)
         meta = json.load(open(os.path.join(d, "meta.json")))
-        res = {"id": "%s-%s" % (pid, m)}
+        res = {"id": "%s-%s%s" % (pid, wave, m)}
         clean(wt)
         rc, o = sh("git apply %s/demo.diff" % d, cwd=wt)
         if rc:
@@ -84,7 +85,7 @@ def main():
         valid = res.get("demo_alone_passes") and res.get("demo_with_patch_fails") and res.get("suite_passes_with_patch")
         res["confirmed"] = bool(valid)
         if valid:
-            dst = os.path.join(V, "seeded", "%s-%s" % (pid, m))
+            dst = os.path.join(V, "seeded", "%s-%s%s" % (pid, wave, m))
             os.makedirs(dst, exist_ok=True)
             shutil.copy(os.path.join(d, "patch.diff"), dst)
             shutil.copy(os.path.join(d, "demo.diff"), dst)
